@@ -716,7 +716,8 @@ def profile(spec, tier):
     if tier == "thorough":
         return {"top": R_TOP + R_TOP_EXTRA, "texts": T_TOP, "tpl0": ("x", "cx", "xc"), "rich": d <= 3}
     if d <= 1:
-        return {"top": R_TOP, "texts": T_TOP, "tpl0": ("x", "cx", "xc"), "rich": False}
+        texts = T_TOP if (is_leaf(spec) or spec[0] == "Union") else T_TOP[:6]
+        return {"top": R_TOP, "texts": texts, "tpl0": ("x", "cx", "xc"), "rich": False}
     return {"top": R_TOP2, "texts": T_TOP[:6], "tpl0": ("x", "cx") if d == 2 else ("x",), "rich": False}
 
 
@@ -1113,9 +1114,11 @@ def grammar(tier):
     group("G2 unary x depth-1 core", [[c, x] for c in unary2 for x in d1])
     group("G2 Optional x depth-1 core", [["Union", x, "none"] for x in d1])
     group("G2 Tuple[X,leaf]", [["Tuple", x, "int"] for x in d1] + ([["Tuple", "str", x] for x in d1] if tier == "thorough" else []))
-    partners = CORE if tier == "thorough" else ["str", "int", "E"]
+    partners = CORE if tier == "thorough" else ["str", "int"]
     group("G2 Union[X,leaf]", [["Union", x, y] for x in d1 for y in partners])
     is_c = [x for x in d1 if x[0] != "Union" and all(a in ("int", "str") for a in x[1:])]
+    if tier == "quick":  # Tuple[., ...] / Dict[int, .] mirror List / Dict[str, .]: thorough tier only
+        is_c = [x for x in is_c if x[0] not in ("TupleVar", "DictInt")]
     group("G2 Union of two int/str containers", [["Union", x, y] for x, y in itertools.combinations(is_c, 2)])
     group("G2 Union triples with a container", [["Union", x, y, "none"] for x in is_c for y in ("str", "int")])
     # G_3 / G_4: int/str skeletons over {List, Dict[str,.], Tuple[.,.], Optional, Union}
@@ -1129,8 +1132,8 @@ def grammar(tier):
                 ["List", x], ["Dict", x], ["Union", x, "none"], ["Union", x, "str"], ["Tuple", x, "int"],
                 ["Tuple", "str", x], ["Union", x, "int"],
             ]  # fmt: skip
-            if d == max_d:  # outermost level: without the mirrored Tuple[str, X] / Union[X, int] (quick: no Tuple)
-                wrappers = wrappers[:4] if tier == "quick" else wrappers[:5]
+            if d == max_d:  # outermost level: without the mirrored Tuple[str, X] / Union[X, int] (quick: no Tuple, Dict)
+                wrappers = [wrappers[0]] + wrappers[2:4] if tier == "quick" else wrappers[:5]
             for s in wrappers:
                 s = family(norm(s))
                 if cj(s) not in all_sk and well_formed(s):
@@ -1166,9 +1169,13 @@ def work(item):
         "spec": spec, "cases": 0, "accepted": 0, "nontrivial": 0, "oracles": {}, "devs": {}, "perms": 0,
         "construct_fail": 0, "escapes": {},
     }  # fmt: skip
-    for chan, v in cases_for(spec, tier):
+    todo = cases_for(spec, tier)
+    mid = None
+    for n, (chan, v) in enumerate(todo):
         case = {"type": spec, "channel": chan, "value": v}
         devs, facts = judge(case)
+        if mid is None and (facts["accepted"] or n >= len(todo) // 3):
+            mid = {"type": spec, "channel": chan, "value": v, "accepted_by_some_member_order": bool(facts["accepted"])}
         res["cases"] += 1
         res["perms"] = facts.get("perms", 0)
         res["accepted"] += bool(facts["accepted"])
@@ -1189,7 +1196,7 @@ def work(item):
                 if (size, cj(case)) < (old[1], cj(old[2])):
                     old[1:] = [size, case, detail]
     res["parses"] = _stats["parses"] - parses0
-    res["sample"] = {"type": spec, "channel": chan, "value": v}
+    res["sample"] = mid
     return res
 
 
